@@ -260,3 +260,50 @@ def histories(ses, prop):
                       replay=lambda m: {"confirmed": True, "input": str(bad[0][:2]), "observed": bad[0][2],
                                         "expected": "tree of a fresh uncached open; product directory and options untouched"},
                       detail={"wrong": str(bad[:2])[:400]})
+
+
+def partial_cache_sequences(ses, prop):
+    """C10 (directed): two images; create all indexes, delete any subset of them, open with every option combination, then
+    open through the cache again — every open equals the fresh uncached open with that step's records_per_chunk"""
+    import itertools as _it
+
+    from ceos_alos2.xarray import open_alos2
+    from native import e2e
+
+    cache_root = e2e.isolate_cache()
+    d, images, names = _mk_local_product(k=2, level="1.5", seed=ses.seed + 7)
+    imgs = names[2:-1]
+    n = 0
+    bad = []
+    try:
+        ref = {r: e2e.canon(open_alos2(d, backend_options={"use_cache": False, "records_per_chunk": r})) for r in (2, 5)}
+        for subset in ([], imgs[:1], imgs[1:], imgs):
+            for uc, cc, r, r2 in _it.product((True, False), (True, False), (2, 5), (2, 5)):
+                shutil.rmtree(cache_root, ignore_errors=True)
+                open_alos2(d, backend_options={"use_cache": False, "create_cache": True, "records_per_chunk": 5})
+                for p_ in list(pathlib.Path(cache_root).rglob("*.index")):
+                    if p_.name[:-6] in subset:
+                        p_.unlink()
+                seq = [("open", uc, cc, r), ("open", True, False, r2), ("open", True, False, r)]
+                for _, a, b, rr in seq:
+                    n += 1
+                    try:
+                        t = e2e.canon(open_alos2(d, backend_options={"use_cache": a, "create_cache": b, "records_per_chunk": rr}))
+                        diff = e2e.first_difference(t, ref[rr])
+                    except BaseException as e:  # noqa: BLE001
+                        diff = f"raised {type(e).__name__}: {e}"[:160]
+                    if diff:
+                        bad.append(({"deleted": subset, "sequence": seq}, diff))
+                        break
+                if len(bad) > 3:
+                    break
+            if len(bad) > 3:
+                break
+    finally:
+        shutil.rmtree(d, ignore_errors=True)
+    ses.bounded_check(f"{prop}/bounded/partially-cached-two-image-product", not bad,
+                      bound=f"2 images: 4 subsets of deleted indexes x 16 option / rpc combinations x 3 opens ({n} opens)",
+                      function="ceos_alos2.xarray.open_alos2", evaluations=n,
+                      replay=lambda m: {"confirmed": True, "input": str(bad[0][0])[:300], "observed": bad[0][1],
+                                        "expected": "tree of a fresh uncached open"},
+                      detail={"wrong": str(bad[:1])[:400]})
